@@ -83,11 +83,67 @@ PAIRS = [('trunc', 'np_trunc'), ('lsb', 'np_lsb'), ('sgn', 'np_sgn'), ('to_bits'
          ('mul', 'np_multiply')]
 
 
+_FIELD_RE = None
+
+
+def _norm_atom(t):
+    """Sibling-independent spelling of an atomic condition: the field of the type at hand is written FIELD."""
+    import re
+    t = re.sub(r'\b(?:type\(\w+\)|\w+)(?:\.sectype)?\.field\b', 'FIELD', t)
+    t = re.sub(r'(?<![\w.])field\b', 'FIELD', t)
+    t = t.replace('runtime.options', 'self.options')
+    return t
+
+
+def _relevant(a):
+    return 'no_prss' in a or 'FIELD' in a or 'K' in a.split() or ' K' in a or 'characteristic' in a or 'sec_param' in a
+
+
+def _map_atoms(f, fn_):
+    if f[0] == 'atom':
+        return ('atom', fn_(f[1]))
+    if f[0] == 'not':
+        return ('not', _map_atoms(f[1], fn_))
+    if f[0] in ('and', 'or'):
+        return (f[0], [_map_atoms(x, fn_) for x in f[1]])
+    return f
+
+
+def _thr_text(v):
+    """Opening threshold as a linear form in T where possible (`2 * self.threshold // 2` -> T)."""
+    from . import sem
+
+    def lin(e):
+        if isinstance(e, ast.BinOp) and isinstance(e.op, ast.FloorDiv) and const_int(e.right):
+            l = lin(e.left)
+            c = const_int(e.right)
+            if l is not None and l.c % c == 0 and all(x % c == 0 for x in l.t.values()):
+                return l * (1 / Lin(c).c)
+            return None
+        if isinstance(e, ast.BinOp) and isinstance(e.op, (ast.Add, ast.Sub)):
+            a, b = lin(e.left), lin(e.right)
+            if a is None or b is None:
+                return None
+            return a + b if isinstance(e.op, ast.Add) else a - b
+        return to_lin(e, {}, opaque=False)
+    l = lin(sem.symx(v))
+    return repr(l) if l is not None else norm(v)
+
+
 def _skeleton(ctx, fn):
-    """Normalised protocol events of a coroutine: mask bounds (as linear forms), opening thresholds,
-    reshare/PRSS calls, options tests."""
+    """Protocol events of a coroutine with the conditions under which they happen: {(kind, detail): formula}.  Kinds: mask
+    bounds (as linear forms), openings with their threshold, resharings, PRSS calls, head-room additions, contributor divisors.
+    Conditions are propositional formulas over option / field-size atoms (other atoms are quantified away), so the
+    nesting, polarity and naming of the tests do not matter."""
     from .rules_pai import MaskEval
-    ev = {'bounds': set(), 'thresholds': set(), 'tests': set(), 'prss': set(), 'headroom': set(), 'divisors': set()}
+    from . import cond
+    pm = parents(fn.node)
+    ev = {}
+
+    def add(kind, detail, f):
+        f = cond.project(_map_atoms(f, _norm_atom), _relevant)
+        key = (kind, detail)
+        ev[key] = cond.disj([ev[key], f]) if key in ev else f
     knames = {s.targets[0].id for s in iter_nodes(fn.node) if isinstance(s, ast.Assign) and isinstance(s.targets[0], ast.Name)
               and norm(s.value).endswith('options.sec_param')}
     me = MaskEval(fn, knames)
@@ -99,47 +155,50 @@ def _skeleton(ctx, fn):
                 b = c.args[pos] if len(c.args) > pos else None
                 if b is not None:
                     m = me._flat(me.ev(b))
-                    ev['bounds'].add(' | '.join(sorted(map(repr, m.exps))) if m.exps else norm(b))
+                    add('mask', ' | '.join(sorted(map(repr, m.exps))) if m.exps else norm(b), cond.context(fn, c, pm))
                 else:
-                    ev['bounds'].add('field')
+                    add('mask', 'field', cond.context(fn, c, pm))
             if name == 'output':
                 thr = [kw.value for kw in c.keywords if kw.arg == 'threshold']
-                ev['thresholds'].add(norm(thr[0]) if thr else 'default')
+                cx = cond.context(fn, c, pm)
+                if thr:
+                    for f, v, st in cond.value_cases(fn, thr[0], c, pm):
+                        add('open', _thr_text(v), cond.conj([cx, f]))
+                else:
+                    add('open', 'default', cx)
+            # NB: resharings are not compared: scalar protocols reshare inside schur_prod()/mul(), array ones call _reshare directly
             if name in ('pseudorandom_share_zero', 'np_pseudorandom_share_0'):
-                ev['prss'].add('zero')
+                add('prss', 'zero', cond.context(fn, c, pm))
             if name in ('pseudorandom_share', 'np_pseudorandom_share'):
-                ev['prss'].add('share')
-        if isinstance(c, ast.If):
-            t = norm(c.test)
-            if 'no_prss' in t or 'field_relative_size' in t or 'sec_param' in t or 'characteristic' in t:
-                ev['tests'].add(t.replace('sftype.sectype', 'sftype').replace('stype.sectype', 'stype'))
+                add('prss', 'share', cond.context(fn, c, pm))
         if isinstance(c, ast.AugAssign) and isinstance(c.op, ast.Add) and norm(c.target) == 'l':
-            ev['headroom'].add(norm(c.value))
+            add('headroom', norm(c.value), cond.TRUE)
         if isinstance(c, ast.Assign) and norm(c.targets[0]) == 'd' and isinstance(c.value, ast.IfExp):
-            ev['divisors'].add(norm(c.value))
+            add('divisor', norm(c.value), cond.TRUE)
         if isinstance(c, ast.Assign) and norm(c.targets[0]) == 'bound' and 'bit_length' in norm(c.value):
-            ev['divisors'].add(norm(c.value))
+            add('divisor', norm(c.value), cond.TRUE)
     return ev
 
 
 def rule_SG1(ctx, rep):
-    """protocol-skeleton agreement between scalar and array siblings: same mask bounds (as linear forms in
-    k, l, f), same opening thresholds, same option / field-size case splits, same PRSS calls, same head-room."""
+    """protocol-skeleton agreement between scalar and array siblings: the same mask bounds (as linear forms in k, l, f),
+    openings with the same thresholds, resharings and PRSS calls, each under equivalent option / field-size conditions."""
+    from . import cond
     model = ctx.model
     for a, b in PAIRS:
         fa, fb = model.func(RT + a), model.func(RT + b)
         sa, sb = _skeleton(ctx, fa), _skeleton(ctx, fb)
         diffs = []
-        for key in ('bounds', 'thresholds', 'prss', 'headroom', 'divisors'):
-            if sa[key] != sb[key]:
-                diffs.append(f'{key}: scalar {sorted(sa[key])} vs array {sorted(sb[key])}')
-        ta = {t for t in sa['tests']}
-        tb = {t for t in sb['tests']}
-        if ta != tb:
-            only_a, only_b = sorted(ta - tb), sorted(tb - ta)
-            diffs.append(f'case splits: only scalar {only_a}; only array {only_b}')
+        for key in sorted(set(sa) | set(sb)):
+            what = f'{key[0]} {key[1]}'.strip()
+            if key not in sb:
+                diffs.append(f'the scalar protocol has `{what}` (when {cond.fmt(sa[key])}), the array sibling has not')
+            elif key not in sa:
+                diffs.append(f'the array sibling has `{what}` (when {cond.fmt(sb[key])}), the scalar protocol has not')
+            elif not cond.equivalent(sa[key], sb[key]):
+                diffs.append(f'`{what}` happens when {cond.fmt(sa[key])} in the scalar protocol but when {cond.fmt(sb[key])} in the array sibling')
         if diffs:
             for d in diffs:
                 rep.bad('SG1', fb, f'{a} / {b}', f'array sibling deviates from the scalar protocol -- {d}', fb.node)
         else:
-            rep.ok('SG1', fb, f'{a} / {b}', f'same mask bounds {sorted(sa["bounds"])}, thresholds {sorted(sa["thresholds"])}, case splits and PRSS calls', fb.node)
+            rep.ok('SG1', fb, f'{a} / {b}', 'same events under equivalent conditions: ' + '; '.join(f'{k[0]} {k[1]}'.strip() for k in sorted(sa)), fb.node)
